@@ -108,17 +108,29 @@ def check_pack(ctx, rules=("PACK", "AFFINE", "FEASIBLE")):
             out.update(canon_tests(t, p))
         return out
 
+    from ..astutil import contradicts, truth_under
+
+    # the two modes of the fit: the branch test that mentions adjust_values holds (all its conjuncts) / adjust_values is off
+    mode_adjust = {("adjust_values", True)}
+    for s_ in fv.statements():
+        if isinstance(s_, ast.If) and "adjust_values" in names_in(s_.test):
+            ft_ = canon_tests(s_.test, True)
+            if ("adjust_values", True) in ft_:
+                mode_adjust |= set(ft_)
+    mode_fixed = {("adjust_values", False)}
     instances = []
     for c in sites:
         g = facts(c)
         if ("adjust_values", True) in g:
-            instances.append((c, "adjust", {("adjust_values", True)}))
-        elif ("adjust_values", False) in g:
-            instances.append((c, "fixed", {("adjust_values", False)}))
+            instances.append((c, "adjust", set(mode_adjust)))
+        elif ("adjust_values", False) in g or any(not p_ and isinstance(t_, ast.BoolOp) and isinstance(t_.op, ast.And) and any(U(v_) == "adjust_values" for v_ in t_.values)
+                                                   for t_, p_ in si.effective_guards(c)):
+            # else-arm of `if adjust_values [and <the levels differ>]:` — the levels are kept fixed on this path
+            instances.append((c, "fixed", set(mode_fixed)))
         else:
             # one call shared by both settings: analysed once per setting, resolving names under that assumption
-            instances.append((c, "adjust", {("adjust_values", True)}))
-            instances.append((c, "fixed", {("adjust_values", False)}))
+            instances.append((c, "adjust", set(mode_adjust)))
+            instances.append((c, "fixed", set(mode_fixed)))
     for idx, (c, branch, assume) in enumerate(instances):
         site = f"{QUAL}:least_squares[{branch}]"
         fun = c.args[0] if c.args else None
@@ -142,7 +154,13 @@ def check_pack(ctx, rules=("PACK", "AFFINE", "FEASIBLE")):
         cl = [g for g in m.all_functions() if g.parent is fi and isinstance(fun, ast.Name) and g.name == fun.id]
         # choose the definition in the same branch
         closure = None
-        compatible = [g for g in cl if not any((t_, not p_) in assume for t_, p_ in facts(g.node))]
+        compatible = [g for g in cl if not contradicts(si.effective_guards(g.node), assume)]
+        if len(compatible) > 1:
+            # several candidates: the one defined in the same arm (block) as the call
+            cst = si.statement(c)
+            same = [g for g in compatible if si.parent.get(id(g.node)) is not None and cst is not None and si.parent.get(id(g.node)) == si.parent.get(id(cst))]
+            if len(same) == 1:
+                compatible = same
         if len(compatible) == 1:
             closure = compatible[0]
         if closure is None:
@@ -169,8 +187,14 @@ def check_pack(ctx, rules=("PACK", "AFFINE", "FEASIBLE")):
                     store_ok = True
         # read-back
         k_rb = None
-        for s in fv.statements():
-            if isinstance(s, ast.Assign) and U(s.targets[0]) == "data_flat[free]" and "result" in names_in(s.value) and not any((t_, not p_) in assume for t_, p_ in facts(s)):
+        rb_cands = [s for s in fv.statements() if isinstance(s, ast.Assign) and U(s.targets[0]) == "data_flat[free]" and "result" in names_in(s.value) and not contradicts(si.effective_guards(s), assume)]
+        if len(rb_cands) > 1:
+            cst_ = si.statement(c)
+            same_ = [s for s in rb_cands if cst_ is not None and si.parent.get(id(s)) == si.parent.get(id(cst_))]
+            if same_:
+                rb_cands = same_
+        for s in rb_cands:
+            if True:
                 v = s.value
                 if isinstance(v, ast.Subscript) and isinstance(v.slice, ast.Slice) and v.slice.upper is not None and isinstance(v.slice.upper, ast.UnaryOp):
                     k_rb = v.slice.upper.operand.value
@@ -220,6 +244,39 @@ def check_pack(ctx, rules=("PACK", "AFFINE", "FEASIBLE")):
                            f"lower ≤ start ≤ upper for every vmax ≥ vmin (gaps {(X0[i] - LO[i]).show()}, {(HI[i] - X0[i]).show()})",
                            f"start value {X0[i].show()} is not inside [{LO[i].show()}, {HI[i].show()}] for all intensity levels with vmax ≥ vmin "
                            f"(e.g. levels (10, 11)): least_squares raises `Initial guess is outside of provided bounds`")
+            if "STRICT" in rules:
+                _strict_bounds(ctx, fi, fv, c, site, LO, HI, assume)
+
+
+def _strict_bounds(ctx, fi, fv, c, site, LO, HI, assume=()):
+    """least_squares needs lower < upper strictly in every slot.  An intensity slot whose interval is k·(vmax − vmin) wide
+    degenerates when the fitted region is constant (vmin = vmax taken from the data), unless a guard excludes that case."""
+    from ..astutil import canon_guards
+
+    si = stmt_index(fv)
+    degenerate = []
+    for i in range(len(LO)):
+        w = linear_in_levels(HI[i] - LO[i])
+        if w is not None and w[0] == -w[1] and w[0] >= 0:  # width = k·(vmax − vmin), k ≥ 0
+            degenerate.append((i, (HI[i] - LO[i]).show()))
+    if not degenerate:
+        return
+    g = canon_guards(si, c, expand=lambda t, at: fv.expand(t, at, allow_mutated=True, stop=("vmin", "vmax")))
+    # facts that define the mode in which these bounds are used (the branch test that selects the intensity fit) count as guards
+    for txt, pol in assume:
+        try:
+            tn = fv.expand(ast.parse(txt, mode="eval").body, c, allow_mutated=True, stop=("vmin", "vmax"))
+        except SyntaxError:
+            continue
+        from ..astutil import canon_tests
+
+        g = set(g) | set(canon_tests(tn, pol))
+    texts = {t.replace(" ", "") for t, p in g if p} | {"not:" + t.replace(" ", "") for t, p in g if not p}
+    guarded = any(x in texts for x in ("0<vmax-vmin", "vmin<vmax", "not:vmax-vmin==0", "not:vmax==vmin", "not:vmin==vmax", "not:vmax<=vmin", "not:vmax-vmin<=0"))
+    ctx.decide(guarded, "FEASIBLE", f"{site}:strict-bounds", (fi, c),
+               "a guard excludes vmax = vmin, so every intensity slot has lower < upper",
+               f"intensity slot(s) {[i for i, _ in degenerate]} have the interval width {degenerate[0][1]}, which is 0 when the fitted region is constant (vmin = vmax, e.g. a constant image with "
+               "refine_args={'adjust_values': True}): least_squares raises `Each lower bound must be strictly less than each upper bound` and locate_droplets aborts on a valid field")
 
 
 def _check_model(ctx, closure, site, env_outer, slot_names, rules):
